@@ -361,21 +361,28 @@ MkOp(out, inn, F(_, _)) ==
   [sh |-> <<nr, nc>>, out |-> out, inn |-> inn,
    e |-> TLCEval([i \in 1..(nr * nc) |-> F(Unravel((i - 1) \div nc, out), Unravel((i - 1) % nc, inn))])]
 OAt(M, I, J) == M.e[RavelIx(I, M.out) * M.sh[2] + RavelIx(J, M.inn) + 1]
+\* asmatrix (tensor.py:1197-1202): sum over the terms of the Kronecker product of their matrices
+KronM(A, B) ==
+  LET rb == Len(B)  cb == Len(B[1]) IN
+  TLCEval([i \in 1..(Len(A) * rb) |-> [j \in 1..(Len(A[1]) * cb) |->
+             A[((i - 1) \div rb) + 1][((j - 1) \div cb) + 1] * B[((i - 1) % rb) + 1][((j - 1) % cb) + 1]]])
 OpDense(r) ==
-  MkOp(OpOut(r), OpIn(r), LAMBDA I, J :
-         SSum([t \in 1..Len(r.ts) |-> SProd([j \in 1..Len(r.ts[t]) |-> r.ts[t][j][I[j] + 1][J[j] + 1]])]))
-OBounded(M) == SeqMaxAbs(M.e) <= EBound /\ Len(M.e) <= 1300 /\ Len(M.out) <= 3
-MAdd(A, B) == [A EXCEPT !.e = [i \in 1..Len(A.e) |-> A.e[i] + B.e[i]]]
-MSub(A, B) == [A EXCEPT !.e = [i \in 1..Len(A.e) |-> A.e[i] - B.e[i]]]
-MNeg(A)    == [A EXCEPT !.e = [i \in 1..Len(A.e) |-> -A.e[i]]]
+  LET Ms == TLCEval([t \in 1..Len(r.ts) |-> FoldLeft(KronM, r.ts[t][1], Tail(r.ts[t]))])
+      nr == Len(Ms[1])  nc == Len(Ms[1][1])
+  IN [sh |-> <<nr, nc>>, out |-> OpOut(r), inn |-> OpIn(r),
+      e |-> TLCEval([i \in 1..(nr * nc) |-> SSum([t \in 1..Len(Ms) |-> Ms[t][((i - 1) \div nc) + 1][((i - 1) % nc) + 1]])])]
+OBounded(M) == SeqMaxAbs(M.e) <= EBound /\ Len(M.e) <= 256 /\ Len(M.out) <= 3
+MAdd(A, B) == [A EXCEPT !.e = TLCEval([i \in 1..Len(A.e) |-> A.e[i] + B.e[i]])]
+MSub(A, B) == [A EXCEPT !.e = TLCEval([i \in 1..Len(A.e) |-> A.e[i] - B.e[i]])]
+MNeg(A)    == [A EXCEPT !.e = TLCEval([i \in 1..Len(A.e) |-> -A.e[i]])]
 MMul(A, B) ==   \* composition: A after B
   LET nk == A.sh[2] IN
   [sh |-> <<A.sh[1], B.sh[2]>>, out |-> A.out, inn |-> B.inn,
-   e |-> [i \in 1..(A.sh[1] * B.sh[2]) |->
+   e |-> TLCEval([i \in 1..(A.sh[1] * B.sh[2]) |->
             LET row == (i - 1) \div B.sh[2]  col == (i - 1) % B.sh[2] IN
-            SSum([q \in 1..nk |-> A.e[row * nk + q] * B.e[(q - 1) * B.sh[2] + col + 1]])]]
+            SSum([q \in 1..nk |-> A.e[row * nk + q] * B.e[(q - 1) * B.sh[2] + col + 1]])])]
 MTr(A) == [sh |-> <<A.sh[2], A.sh[1]>>, out |-> A.inn, inn |-> A.out,
-           e |-> [i \in 1..Len(A.e) |-> A.e[((i - 1) % A.sh[1]) * A.sh[2] + ((i - 1) \div A.sh[1]) + 1]]]
+           e |-> TLCEval([i \in 1..Len(A.e) |-> A.e[((i - 1) % A.sh[1]) * A.sh[2] + ((i - 1) \div A.sh[1]) + 1]])]
 MKron(A, B) ==
   MkOp(A.out \o B.out, A.inn \o B.inn, LAMBDA I, J :
          OAt(A, SubSeq(I, 1, Len(A.out)), SubSeq(J, 1, Len(A.inn)))
@@ -384,7 +391,7 @@ MSlice(A, lim) ==   \* the principal sub-block: per axis indices lim[j][1] .. li
   LET nsh == [j \in 1..Len(lim) |-> lim[j][2] - lim[j][1]] IN
   MkOp(nsh, nsh, LAMBDA I, J : OAt(A, [j \in 1..Len(lim) |-> I[j] + lim[j][1]], [j \in 1..Len(lim) |-> J[j] + lim[j][1]]))
 MApply(A, T) ==     \* matrix times vec(T), reshaped to the output shape
-  [sh |-> A.out, e |-> [i \in 1..A.sh[1] |-> SSum([q \in 1..A.sh[2] |-> A.e[(i - 1) * A.sh[2] + q] * T.e[q]])]]
+  [sh |-> A.out, e |-> TLCEval([i \in 1..A.sh[1] |-> SSum([q \in 1..A.sh[2] |-> A.e[(i - 1) * A.sh[2] + q] * T.e[q]])])]
 
 OpNegR(r)      == OpR([t \in 1..Len(r.ts) |-> [j \in 1..Len(r.ts[t]) |-> IF j = 1 THEN MatNeg(r.ts[t][1]) ELSE r.ts[t][j]]])
 OpAddR(a, b)   == OpR(a.ts \o b.ts)
@@ -421,7 +428,9 @@ GenRep(kind, sh, s) ==
          ELSE LET p == 1 + (Hash(s, 4) % (Len(sh) - 1)) IN
               ProdR(<<GenLeaf(SubSeq(sh, 1, p), s + 1), GenLeaf(SubSeq(sh, p + 1, Len(sh)), s + 2)>>)
 \* operator with output shape out and input shape inn, Kronecker rank 1..2
+EyeOp(ns) == [k |-> "op", eye |-> TRUE, ts |-> <<[j \in 1..Len(ns) |-> IdMat(ns[j])]>>]   \* CanonicalOperator.eye(ns)
 GenOp(out, inn, s) ==
+  IF out = inn /\ Hash(s, 6) % 4 = 0 THEN EyeOp(out) ELSE
   OpR([t \in 1..(1 + (Hash(s, 5) % 2)) |-> [j \in 1..Len(inn) |-> GenMat(out[j], inn[j], s + t, 40 * j)]])
 
 Kinds == {"can", "tuck", "sum", "prod", "full"}
@@ -466,7 +475,7 @@ GenIx(sh, s) ==
       lpos == (Hash(s, 10) % (d + 2)) + 1          \* axis of the index list (> d: none)
       len  == IF Hash(s, 11) % 3 = 0 THEN Hash(s, 12) % (d + 1) ELSE d
   IN [k \in 1..len |-> GenItem(sh[k], s, k, k = lpos)]
-IxChoices(sh) == IF Alpha = "seed" THEN {GenIx(sh, StepSeed(sd, 3)) : sd \in Seeds} ELSE IxEnum(sh)
+IxChoices(sh) == IF Alpha = "seed" THEN {GenIx(sh, StepSeed(sd, 3)) : sd \in 1..(2 * NSeeds)} ELSE IxEnum(sh)
 
 \* ---- matrices for mode products: rows 1..3, None with some probability
 GenBs(sh, s) ==
@@ -487,6 +496,9 @@ SqArgs(sh) ==
      {sq(FALSE, <<p[1], p[2]>>, FALSE) : p \in {q \in ones \X ones : q[1] < q[2]}} \cup
      {sq(FALSE, <<p[2], p[1] - d>>, FALSE) : p \in {q \in ones \X ones : q[1] < q[2]}} \cup
      {sq(FALSE, SetToSortSeq(ones, <), FALSE)} \cup {sq(FALSE, <<>>, FALSE)}
+SqChoices(sh) ==
+  IF Alpha # "seed" THEN SqArgs(sh) ELSE
+  LET all == SetToSeq(SqArgs(sh)) IN {all[(Hash(StepSeed(sd, 4), 79) % Len(all)) + 1] : sd \in Seeds}
 SqAxes(a, sh) == IF a.all THEN SelectSeq([j \in 1..Len(sh) |-> j - 1], LAMBDA j : sh[j + 1] = 1) ELSE a.ax
 
 -----------------------------------------------------------------------------
@@ -511,8 +523,8 @@ OpShapes(d) == IF d = 1 THEN {<<<<2>>, <<2>>>>, <<<<3>>, <<2>>>>}
                ELSE IF d = 2 THEN {<<<<2, 3>>, <<2, 3>>>>, <<<<1, 2>>, <<3, 2>>>>}
                ELSE {<<<<2, 1, 2>>, <<2, 1, 2>>>>}
 InitO ==
-  \E d \in OpDims : \E oi \in OpShapes(d) : \E q \in 1..NInit :
-    LET r == GenOp(oi[1], oi[2], Hash(Salt * 7 + q, 5 + d))
+  \E d \in OpDims : \E oi \in OpShapes(d) : \E q \in 0..NInit :
+    LET r == IF q = 0 THEN EyeOp(oi[2]) ELSE GenOp(oi[1], oi[2], Hash(Salt * 7 + q, 5 + d))
         v == OpDense(r)
     IN /\ rep = r /\ val = v /\ exact = TRUE /\ hist = <<OpInitRec(r, v)>>
 Init == InitT \/ InitO
@@ -540,14 +552,17 @@ StepO(name, args, nrep, nval) ==
   /\ (Mode = "bfs" => Emit("H", hist'))
 
 Operand(kd, sd, act) == GenRep(kd, val.sh, StepSeed(sd, act))
+\* operand formats offered: all of them when enumerating, one pseudo-random per seed when simulating
+KindSeq == <<"can", "tuck", "sum", "prod", "full">>
+KindsFor(sd, act, n) == IF Alpha = "seed" THEN {KindSeq[(Hash(StepSeed(sd, act), 77) % n) + 1]} ELSE {KindSeq[i] : i \in 1..n}
 
 Add == /\ IsT
-       /\ \E kd \in Kinds, sd \in Seeds :
+       /\ \E sd \in Seeds : \E kd \in KindsFor(sd, 1, 5) :
             LET b == Operand(kd, sd, 1) IN
             /\ Addable(rep, b)
             /\ StepT("Add", [b |-> b], AddR(rep, b), DAdd(val, Dense(b)), exact)
 Sub == /\ IsT
-       /\ \E kd \in Kinds, sd \in Seeds :
+       /\ \E sd \in Seeds : \E kd \in KindsFor(sd, 2, 5) :
             LET b == Operand(kd, sd, 2) IN
             /\ Addable(rep, b)
             /\ StepT("Sub", [b |-> b], SubR(rep, b), DSub(val, Dense(b)), exact)
@@ -565,7 +580,7 @@ GetItem ==
 
 Squeeze ==
   /\ IsT /\ rep.k \in {"can", "tuck"}
-  /\ \E a \in SqArgs(val.sh) :
+  /\ \E a \in SqChoices(val.sh) :
        LET ax == SqAxes(a, val.sh)
            S  == {NormAx(ax[i], Len(val.sh)) + 1 : i \in 1..Len(ax)}
        IN StepT("Squeeze", a, IF rep.k = "can" THEN SqueezeCan(rep, ax) ELSE SqueezeTuck(rep, ax),
@@ -600,7 +615,8 @@ WrapSum == /\ IsT /\ rep.k # "sum"
            /\ StepT("WrapSum", [x |-> 0], SumR(<<rep>>), val, exact)
 Outer ==
   /\ IsT /\ Len(val.sh) < MaxOrd
-  /\ \E kd \in {"can", "tuck", "full"}, sd \in Seeds, left \in BOOLEAN :
+  /\ \E sd \in Seeds : \E kd \in (KindsFor(sd, 8, 5) \cap {"can", "tuck", "full"}) :
+     \E left \in (IF Alpha = "seed" THEN {Hash(StepSeed(sd, 8), 78) % 2 = 0} ELSE BOOLEAN) :
        LET s  == StepSeed(sd, 8)
            b  == GenRep(kd, <<1 + (Hash(s, 6) % 3)>>, s)
        IN IF left THEN StepT("Outer", [b |-> b, left |-> TRUE], ProdR(<<b, rep>>), DOuter(Dense(b), val), exact)
@@ -643,7 +659,7 @@ OpSlice ==
        IN StepO("OpSlice", [lim |-> lim], OpSliceR(rep, lim), MSlice(val, lim))
 OpApply ==    \* leaves operator mode: the result is a tensor in the format of the argument
   /\ IsO /\ Steps < MaxLen
-  /\ \E kd \in Kinds, sd \in Seeds :
+  /\ \E sd \in Seeds : \E kd \in KindsFor(sd, 16, 5) :
        LET x  == GenRep(kd, val.inn, StepSeed(sd, 16))
            nv == MApply(val, Dense(x))
            nr == ApplyR(rep, x)
@@ -653,9 +669,18 @@ OpApply ==    \* leaves operator mode: the result is a tensor in the format of t
                                    n2 |-> NormSq(nv), exact |-> exact])
           /\ (Mode = "bfs" => Emit("H", hist'))
 
-Next == \/ Add \/ Sub \/ Neg \/ GetItem \/ Squeeze \/ NwayProd \/ Pad \/ Ravel \/ JoinBases
+\* "sim" mode: the history is emitted once, by the last transition of the behaviour (TLC evaluates the
+\* invariants on every candidate successor, an action only from the state it actually reached)
+IsDone == hist[Len(hist)].a = "Done"
+Done == /\ Mode = "sim" /\ ~IsDone
+        /\ Steps = MaxLen \/ rep.k \in {"scal", "empty"}
+        /\ Emit("H", hist)
+        /\ hist' = Append(hist, [a |-> "Done"])
+        /\ UNCHANGED <<val, rep, exact>>
+Work == \/ Add \/ Sub \/ Neg \/ GetItem \/ Squeeze \/ NwayProd \/ Pad \/ Ravel \/ JoinBases
         \/ ToCanonical \/ ToTucker \/ Orthogonalize \/ WrapSum \/ Outer \/ ApplyOp
         \/ OpAdd \/ OpSub \/ OpNeg \/ Compose \/ Transpose \/ KronExtend \/ OpSlice \/ OpApply
+Next == Done \/ (Steps < MaxLen /\ ~IsDone /\ Work)
 Spec == Init /\ [][Next]_vars
 
 -----------------------------------------------------------------------------
@@ -676,6 +701,4 @@ CanNormOK ==
             LET r == ((q - 1) \div rep.R) + 1  s == ((q - 1) % rep.R) + 1 IN
             SProd([j \in 1..Len(rep.Xs) |-> SSum([i \in 1..Len(rep.Xs[j]) |-> rep.Xs[j][i][r] * rep.Xs[j][i][s]])])])
       = NormSq(val)
-\* "sim" mode: the history is emitted once, when the behaviour cannot or may not continue
-EmitEnd == (Mode = "sim" /\ (Steps = MaxLen \/ rep.k \in {"scal", "empty"})) => Emit("H", hist)
 =============================================================================
